@@ -153,11 +153,25 @@ package das
 //@   property C13
 //@   trusted
 //@   modifies s.failed
+// A retry job's result: every height that failed again goes back to `failed` with the attempt count it
+// had while in retry plus one (so the count never decreases and the back-off grows), no failed height
+// is lost, and the job's heights leave `inRetry`.
 //@ func (*coordinatorState).handleRetryResult
-//@   property C13
-//@   trusted
+//@   property C13 C04
+//@   requires s != nil && s.failed != nil && s.inRetry != nil && s.failed != s.inRetry && res.to < 18446744073709551615
 //@   modifies s.failed
 //@   modifies s.inRetry
+//@   ensures forall h uint64 :: has(res.failed, h) ==> has(s.failed, h) && s.failed[h].count == (old(has(s.inRetry, h)) ? old(s.inRetry[h].count) : 0) + 1
+//@   ensures forall h uint64 :: old(has(s.failed, h)) ==> has(s.failed, h)
+//@   ensures forall h uint64 :: res.from <= h && h <= res.to ==> !has(s.inRetry, h)
+//@   loop 1: invariant forall h uint64 :: seen(1, h) ==> has(s.failed, h) && s.failed[h].count == (old(has(s.inRetry, h)) ? old(s.inRetry[h].count) : 0) + 1
+//@   loop 1: invariant forall h uint64 :: old(has(s.failed, h)) ==> has(s.failed, h)
+//@   loop 1: invariant forall h uint64 :: has(s.inRetry, h) == old(has(s.inRetry, h)) && (has(s.inRetry, h) ==> s.inRetry[h] == old(s.inRetry[h]))
+//@   loop 2: invariant res.from <= h && (forall k uint64 :: res.from <= k && k < h ==> !has(s.inRetry, k))
+//@   loop 2: invariant forall h2 uint64 :: has(res.failed, h2) ==> has(s.failed, h2)
+//@   loop 2: invariant forall h2 uint64 :: has(res.failed, h2) ==> s.failed[h2].count == (old(has(s.inRetry, h2)) ? old(s.inRetry[h2].count) : 0) + 1
+//@   loop 2: invariant s.failed != s.inRetry
+//@   loop 2: invariant forall h2 uint64 :: old(has(s.failed, h2)) ==> has(s.failed, h2)
 //@ func (*coordinatorState).handleResult
 //@   property C13
 //@   modifies s
